@@ -99,6 +99,16 @@ pub fn run(args: &Args) -> Report {
         }
     }
     let mut cases = Vec::new();
+    // a link that takes one (two) message(s) at a time: the sending half of the connection task meets a sink that is
+    // not ready while frames of every kind wait in its queue
+    for (a, b) in cfgs.iter().copied().filter(|(a, b)| a == b || (a.0 == 1 && b.0 >= 4) || (b.0 == 1 && a.0 >= 4)).take(if thorough { 60 } else { 10 }) {
+        for cap in [1usize, 2] {
+            let n = 2 * a.0.max(b.0) as usize + 3;
+            let cfg = XferCfg { a, b, cap, streams: streams(n, true), stream_buffer: 1, one_byte_frames: false, dgram_pingpong: 2, dgram_buffer: 1, drop_mux_when_writers_done: None, extra: xfer::XferExtra::NONE, horizon: 20_000 };
+            let label = format!("link capacity {cap} | both directions | {}", cfg.describe());
+            cases.push(Case { try_unbounded: false, max_k: u32::MAX, label, exec: Box::new(move |r| xfer::exec(&cfg, &or, r)) });
+        }
+    }
     for (a, b) in cfgs {
         let n = 2 * a.0.max(b.0) as usize + 3;
         let bufs: &[(usize, usize)] = if thorough { &[(1, 1), (2, 2)] } else { &[(1, 1)] };
